@@ -404,7 +404,7 @@ enum HistOp {
 /// All sequences of three operations over a reduced alphabet (writes through several routes,
 /// reads, and the three ways of clearing the bitmap) with memory and bitmap carried over; both
 /// oracles are applied after every step, relative to the dirty set observed before it.
-fn histories<B: BitmapSlice>(v: &Verdicts, what: &str, placed: &Placed, vs: &VolatileSlice<B>, bm: &AtomicBitmap, p: usize) -> u64 {
+fn histories<B: BitmapSlice>(v: &Verdicts, what: &str, placed: &Placed, vs: &VolatileSlice<B>, bm: &AtomicBitmap, p: usize, depth: usize) -> u64 {
     let n = placed.len;
     let alpha: Vec<HistOp> = vec![
         HistOp::Mem(Op::Write { off: 0, len: p + 1, mis: 1 }),
@@ -419,16 +419,23 @@ fn histories<B: BitmapSlice>(v: &Verdicts, what: &str, placed: &Placed, vs: &Vol
         HistOp::Reset,
         HistOp::Harvest,
         HistOp::ResetRange(0, p + 1),
+        // a write over the whole container and a reset of its middle
+        HistOp::Mem(Op::Write { off: 0, len: n, mis: 0 }),
+        HistOp::ResetRange(p, n.saturating_sub(2 * p).max(1)),
     ];
     let npages = bm.len();
     let mut t = 0u64;
-    for (i, a) in alpha.iter().enumerate() {
-        for (j, b) in alpha.iter().enumerate() {
-            for (k, c) in alpha.iter().enumerate() {
+    let na = alpha.len();
+    for code in 0..na.pow(depth as u32) {
+        {
+            {
+                let idx: Vec<usize> = (0..depth).map(|d| code / na.pow(d as u32) % na).collect();
+                let seq: Vec<&HistOp> = idx.iter().map(|i| &alpha[*i]).collect();
+                let (i, j, k) = (idx[0], idx.get(1).copied().unwrap_or(0), idx.get(2).copied().unwrap_or(0) + idx.get(3).copied().unwrap_or(0) * 5);
                 let mut state = labels(n);
                 placed.load(&state);
                 bm.reset();
-                for (step, h) in [a, b, c].into_iter().enumerate() {
+                for (step, h) in seq.iter().copied().enumerate() {
                     t += 1;
                     let tag = (i * 31 + j * 7 + k + step * 3) as u8 | 1;
                     match h {
@@ -443,8 +450,8 @@ fn histories<B: BitmapSlice>(v: &Verdicts, what: &str, placed: &Placed, vs: &Vol
                             let describe = || {
                                 (
                                     format!("{}/{}/history/{}", v.which, what, op.name()),
-                                    format!("history {:?}; {:?}; {:?} step {}", a, b, c, step),
-                                    json!({"root": what, "len": n, "page_size": p, "history": [format!("{:?}", a), format!("{:?}", b), format!("{:?}", c)], "failing_step": step}),
+                                    format!("history {:?} step {}", seq, step),
+                                    json!({"root": what, "len": n, "page_size": p, "history": seq.iter().map(|h| format!("{:?}", h)).collect::<Vec<_>>(), "failing_step": step}),
                                 )
                             };
                             if crate::crash::guarded(v.ctx, &describe, || run_op(vs, op, tag)).is_none() {
@@ -489,7 +496,7 @@ fn part_a(v: &Verdicts, n: usize, p: usize, thorough: bool) -> u64 {
         // SAFETY: placed outlives vs
         let vs = unsafe { VolatileSlice::with_bitmap(placed.ptr(), n, bm.slice_at(0), None) };
         t += slice_root(v, "slice/RefSlice", &placed, &vs, &bm, 0, p, true, thorough, if thorough { 3 } else { 2 });
-        t += histories(v, "slice/RefSlice", &placed, &vs, &bm, p);
+        t += histories(v, "slice/RefSlice", &placed, &vs, &bm, p, if thorough { 5 } else { 3 });
     }
     // the container is the tail of a larger region: nested base offset
     for k in [1usize, p, p + 1] {
@@ -903,7 +910,7 @@ fn migration(ctx: &Ctx) -> (u64, u64) {
 pub fn run(prop: &'static str, tier: Tier, replay: Option<String>) -> i32 {
     let ctx = crate::new_ctx(prop, tier, "model_checking", &replay);
     let thorough = tier.thorough();
-    ctx.set_rule("E1, one enumeration judged by two oracles. (A) tracked VolatileSlices (plain RefSlice, RefSlice at a base offset, nested BaseSlice, ArcSlice, Option Some/None) of 16 and 24 bytes x page sizes {1,2,3,4,5,8,16,N+5} x every derivation chain of up to 2 (thorough 3) links (subslice, offset, split_at either half, get_slice, get_ref->to_slice, get_array_ref->to_slice / ref_at->to_slice; arguments from the boundary alphabet of the page size) x every write and read path of the container alphabet through the derived accessor x start bitmaps clean / checkerboard / all dirty; (B) one mmap region and (C) guest memory with two adjacent regions and a hole, page sizes as above: every route of the byte-access interface at every (address, length), descriptor reads through the real raw-fd adapter over interposed read(2) (full, short, failing after touching a prefix, EINTR), accessors derived through the region/memory API, and write;reset;write histories. C05: every byte that differs from the pre-operation snapshot must be dirty in the owning region's bitmap at the region's own offset; plus (E3) all interleavings of one tracked write (9 write paths) with one fetch-and-clear consumer that copies the reported pages - after a final pass the consumer's image must equal guest memory. C16: dirty-after == dirty-before U pages overlapping the bytes the reference model says were written (a failing descriptor read may additionally mark its whole target). State = (memory contents, dirty set); every transition runs on the real objects.");
+    ctx.set_rule("E1, one enumeration judged by two oracles. (A) tracked VolatileSlices (plain RefSlice, RefSlice at a base offset, nested BaseSlice, ArcSlice, Option Some/None) of 16 and 24 bytes x page sizes {1,2,3,4,5,8,16,N+5} x every derivation chain of up to 2 (thorough 3) links (subslice, offset, split_at either half, get_slice, get_ref->to_slice, get_array_ref->to_slice / ref_at->to_slice; arguments from the boundary alphabet of the page size) x every write and read path of the container alphabet through the derived accessor x start bitmaps clean / checkerboard / all dirty; (B) one mmap region and (C) guest memory with two adjacent regions and a hole, page sizes as above: every route of the byte-access interface at every (address, length), descriptor reads through the real raw-fd adapter over interposed read(2) (full, short, failing after touching a prefix, EINTR), accessors derived through the region/memory API, and write;reset;write histories; all histories of 3 (thorough 5) steps over an alphabet of 14 memory / reset / harvest / reset-range operations with memory and bitmap carried over. C05: every byte that differs from the pre-operation snapshot must be dirty in the owning region's bitmap at the region's own offset; plus (E3) all interleavings of one tracked write (9 write paths) with one fetch-and-clear consumer that copies the reported pages - after a final pass the consumer's image must equal guest memory. C16: dirty-after == dirty-before U pages overlapping the bytes the reference model says were written (a failing descriptor read may additionally mark its whole target). State = (memory contents, dirty set); every transition runs on the real objects.");
     ctx.assume("raw-pointer writes are exempt as documented; marks through a bare BaseSlice with wrapping offsets are outside both oracles");
     if ctx.replay_of.is_some() {
         println!("replay: the enumeration is deterministic; re-running the quick tier and reporting whether the recorded key fails again");
